@@ -11,6 +11,13 @@ Scenario (JSON-serialisable dict, every time in absolute virtual milliseconds, -
               pool: queued behind R for the slot; dnsfirst: C started 1 ms before R and owns the
               shared lookup; dnswait: C started 1 ms after R and waits on R's lookup
   dns         None (literal IP cached beforehand: no lookup) | ms | -1   answer time of the lookup
+              dnsafter: C starts at `c_at` (>= t0), in the same callback AFTER a cancel scheduled for that
+              instant and `c_late` loop iterations later (0..3) — a request that joins the lookup of R
+              after R was cancelled / timed out
+  dns_unwind  ms the scripted resolver needs to unwind when ITS task is cancelled (never happens on
+              the unchanged tree: the shared lookup is shielded)
+  tls         None (plain http) | list of ms|-1: https request; completion time of the TLS handshake
+              of each successive connect attempt (after its TCP connect completed)
   naddr       number of addresses the resolver returns (1 or 2)
   conn        list of ms|-1: completion time of each successive connect attempt
   body        0 | n   request body size;   wresume  None | ms | -1: the transport pauses writing at
@@ -22,6 +29,7 @@ Scenario (JSON-serialisable dict, every time in absolute virtual milliseconds, -
   cancel      None | ms          Task.cancel() of R at that instant; events listed at the same
                                  instant are performed BEFORE the cancel in the same callback
   think       ms the consumer sleeps after the headers before reading the body
+  slow        1: the consumer streams instead: readany(), sleep `think`, readany(), ... until EOF
   bufsize     read_bufsize of the session (pause threshold = 2*bufsize)
 """
 import asyncio, heapq, itertools, socket
@@ -205,10 +213,11 @@ class Env:
         self.dns_pending = []      # futures of stalled lookups
         self.dns_calls = 0
         self.conn_futs = []        # R's connect attempts (futures)
+        self.tls_futs = []         # R's TLS handshakes (futures)
         self.transports = []
         self.socks = []
         self.unstalled = False
-        self.trace = {"attempts": [], "established": [], "delivered": [], "eof_at": None, "abandoned": [], "pauses": []}
+        self.trace = {"attempts": [], "established": [], "delivered": [], "eof_at": None, "abandoned": [], "pauses": [], "tls_started": [], "lookup_cancelled": None}
 
     def now(self):
         return int(round(self.loop.time() * 1000))
@@ -227,7 +236,16 @@ class Env:
         if host == "r.test" and self.sc.get("dns") is not None and not self.unstalled:
             fut = self.loop.create_future()
             self.dns_pending.append(fut)
-            await fut
+            try:
+                await fut
+            except asyncio.CancelledError:
+                self.trace["lookup_cancelled"] = self.now()
+                if self.sc.get("dns_unwind"):
+                    try:
+                        await asyncio.sleep(self.sc["dns_unwind"] / 1000.0)
+                    except asyncio.CancelledError:
+                        pass
+                raise
         return res
 
     async def close(self):
@@ -254,12 +272,28 @@ class Env:
                 raise
         return sock
 
+    def tls_complete(self, i):
+        if i < len(self.tls_futs) and not self.tls_futs[i].done():
+            self.tls_futs[i].set_result(None)
+
     def conn_complete(self, i):
         if i < len(self.conn_futs) and not self.conn_futs[i].done():
             self.conn_futs[i].set_result(None)
 
     async def create_connection(self, loop, protocol_factory, *, ssl=None, sock=None, server_hostname=None,
                                 ssl_shutdown_timeout=None):
+        if self.owner() == "R" and self.sc.get("tls") is not None and not self.unstalled:
+            # TCP is up; the TLS handshake happens here and the scripted peer may stall it
+            fut = self.loop.create_future()
+            self.tls_futs.append(fut)
+            self.trace["tls_started"].append(self.now())
+            try:
+                await fut
+            except BaseException:
+                self.trace["abandoned"].append(self.now())
+                if sock is not None:
+                    sock.close()
+                raise
         proto = protocol_factory()
         tr = MemTransport(self.loop, proto, self.owner())
         tr.sock = sock
@@ -334,9 +368,18 @@ def run_scenario(sc):
                 async with session.request("POST" if data else "GET", url, data=data, **kw) as r:
                     if name == "R":
                         at["headers"] = ms(loop)
-                    if think:
-                        await asyncio.sleep(think / 1000.0)
-                    body = await r.read()
+                    if name == "R" and sc.get("slow"):
+                        # slow streaming consumer: one readany(), then busy elsewhere for `think` ms
+                        while True:
+                            chunk = await r.content.readany()
+                            if not chunk:
+                                break
+                            await asyncio.sleep(think / 1000.0)
+                        body = b""
+                    else:
+                        if think:
+                            await asyncio.sleep(think / 1000.0)
+                        body = await r.read()
                 res[name] = "ok" if (name == "R" or body == b"ok") else "E_OTHER(body)"
             except BaseException as e:  # noqa
                 res[name] = _classify(e)
@@ -362,7 +405,8 @@ def run_scenario(sc):
                             tr.autorespond()
                 events.append((sc["holder"], 1, rel))
         body = (b"x" * sc["body"]) if sc.get("body") else None
-        start_r = lambda: spawn("R", f"http://{rhost}/", data=body, think=sc.get("think", 0))
+        scheme = "https" if sc.get("tls") is not None else "http"
+        start_r = lambda: spawn("R", f"{scheme}://{rhost}/", data=body, think=sc.get("think", 0))
         start_c = lambda: spawn("C", f"http://{rhost}/", timeout=long)
         co = sc.get("co")
         if co == "dnsfirst":
@@ -370,6 +414,16 @@ def run_scenario(sc):
         events.append((t0, 3, start_r))
         if co in ("pool", "dnswait"):
             events.append((t0 + 1, 2, start_c))
+        if co == "dnsafter":
+            def start_c_late(k=sc.get("c_late", 0)):
+                if k <= 0:
+                    start_c()
+                else:
+                    loop.call_soon(start_c_late, k - 1)
+            events.append((sc["c_at"], 1001, start_c_late))
+        for i, t in enumerate(sc.get("tls") or []):
+            if t >= 0:
+                events.append((t, 5, lambda i=i: env.tls_complete(i)))
         if sc.get("dns") is not None and sc["dns"] >= 0:
             events.append((sc["dns"], 4, env.dns_answer))
         for i, t in enumerate(sc.get("conn", [])):
@@ -441,7 +495,7 @@ def run_scenario(sc):
                 continue          # the connector's shared lookup (reported separately)
             live.append(nm if nm in ("R", "H", "C") else "task")
         h_holding = 1 if (sc.get("holder") is not None and res["H"] is None) else 0
-        if co in ("dnsfirst", "dnswait") and res["C"] is None and "C" in tasks:
+        if co in ("dnsfirst", "dnswait", "dnsafter") and res["C"] is None and "C" in tasks:
             h_holding += 1        # the co-request's own placeholder while it waits for the lookup
         out.update(
             r=res["R"] or "pending", r_at=at.get("R", -1), hdr_at=at.get("headers", -1),
@@ -458,7 +512,7 @@ def run_scenario(sc):
             dns_calls=env.dns_calls,
             trace=env.trace,
             eff_total=None if tmo.total is None else int(round(tmo.total * 1000)),
-            c_waits_dns=1 if (co in ("dnsfirst", "dnswait") and res["C"] is None and "C" in tasks
+            c_waits_dns=1 if (co in ("dnsfirst", "dnswait", "dnsafter") and res["C"] is None and "C" in tasks
                               and conn._throttle_dns_futures) else 0,
         )
         # ---------------------------------------------------------------- follow-up: peer un-stalls
@@ -466,6 +520,8 @@ def run_scenario(sc):
         env.dns_answer()
         for i in range(len(env.conn_futs)):
             env.conn_complete(i)
+        for i in range(len(env.tls_futs)):
+            env.tls_complete(i)
         for tr in env.transports:
             tr.resume_writing_now()
             if tr.owner == "H":
@@ -500,6 +556,160 @@ def run_scenario(sc):
             out["harness_detail"] = repr(task.exception())
         out["loop_excs"] = len([c for c in excs if "Unclosed" not in str(c.get("message", ""))])
         out["unclosed"] = len([c for c in excs if "Unclosed" in str(c.get("message", ""))])
+        return out
+    finally:
+        cmod.aiohappyeyeballs.start_connection, cmod.create_connection = saved
+        loop.stop_on_quiescence = False
+        try:
+            pending = [t for t in asyncio.all_tasks(loop) if not t.done()]
+            for t in pending:
+                t.cancel()
+            if pending:
+                loop.run_until_complete(asyncio.gather(*pending, return_exceptions=True))
+        except BaseException:
+            pass
+        asyncio.set_event_loop(None)
+        loop.close()
+
+
+# ---------------------------------------------------------------------------------------------
+# WebSocket close under a stalled peer (C18: "… or during a WebSocket close")
+
+def run_ws_scenario(sc):
+    """sc: arg = ["default"] | ["obj", ws_receive|None, ws_close|None] | ["float", ws_close]   (ms)
+           recv = None | ms           deprecated receive_timeout= argument
+           close_at = ms              the caller calls ws.close() (handshake is answered at once)
+           peer = -1 | ms             the peer answers the CLOSE frame at that instant (-1: stays silent)
+           cancel = None | ms         Task.cancel() of the caller
+    returns canonical observables"""
+    import base64, hashlib, warnings
+    import aiohttp
+    import aiohttp.connector as cmod
+
+    loop = DLoop()
+    asyncio.set_event_loop(loop)
+    excs = []
+    loop.set_exception_handler(lambda l, c: excs.append(c))
+    env = Env(loop, {"dns": None})
+    saved = (cmod.aiohappyeyeballs.start_connection, cmod.create_connection)
+    out = {}
+
+    def sec(v):
+        return None if v is None else v / 1000.0
+
+    async def main():
+        conn = aiohttp.TCPConnector(limit=1, resolver=env)
+        conn._resolver_owner = False
+        session = aiohttp.ClientSession(connector=conn, timeout=aiohttp.ClientTimeout(total=None))
+        res, at, eff = {}, {}, {}
+
+        def handshake():
+            tr = env.r_transport()
+            if tr is None:
+                return
+            head = bytes(tr.out)
+            if b"\r\n\r\n" not in head or tr.answered:
+                loop.call_soon(handshake) if not tr.closing and not tr.answered and len(head) == 0 else None
+                return
+            tr.answered = 1
+            key = [l.split(b":", 1)[1].strip() for l in head.split(b"\r\n") if l.lower().startswith(b"sec-websocket-key")][0]
+            acc = base64.b64encode(hashlib.sha1(key + b"258EAFA5-E914-47DA-95CA-C5AB0DC85B11").digest())
+            tr.feed(b"HTTP/1.1 101 Switching Protocols\r\nUpgrade: websocket\r\nConnection: upgrade\r\n"
+                    b"Sec-WebSocket-Accept: " + acc + b"\r\n\r\n")
+
+        async def job():
+            kw = {}
+            a = sc["arg"]
+            if a[0] == "obj":
+                kw["timeout"] = aiohttp.ClientWSTimeout(ws_receive=sec(a[1]), ws_close=sec(a[2]))
+            elif a[0] == "float":
+                kw["timeout"] = sec(a[1])
+            if sc.get("recv") is not None:
+                kw["receive_timeout"] = sec(sc["recv"])
+            try:
+                with warnings.catch_warnings():
+                    warnings.simplefilter("ignore")
+                    cm = session.ws_connect("http://10.0.0.1/ws", **kw)
+                    t = asyncio.ensure_future(cm.__aenter__())
+                    t.set_name("R")
+                    for _ in range(6):
+                        await asyncio.sleep(0)
+                        handshake()
+                    ws = await t
+                t = ws._timeout
+                eff["recv"] = None if t.ws_receive is None else int(round(t.ws_receive * 1000))
+                eff["close"] = None if t.ws_close is None else int(round(t.ws_close * 1000))
+                await asyncio.sleep(sc["close_at"] / 1000.0 - loop.time())
+                at["close_called"] = ms(loop)
+                r = await ws.close()
+                res["R"] = "closed" if r else "already"
+                eff["code"] = ws.close_code
+            except BaseException as e:  # noqa
+                res["R"] = _classify(e)
+            at["R"] = ms(loop)
+
+        task = loop.create_task(job(), name="R")
+
+        def peer_close():
+            tr = env.r_transport()
+            if tr is not None:
+                tr.feed(b"\x88\x02\x03\xe8")
+        if sc.get("peer", -1) >= 0:
+            loop.call_at(sc["peer"] / 1000.0, peer_close)
+        if sc.get("cancel") is not None:
+            loop.call_at(sc["cancel"] / 1000.0, task.cancel)
+        await asyncio.sleep(T_OBS / 1000.0 - loop.time())
+        cur = asyncio.current_task()
+        live = sorted(t.get_name() if t.get_name() == "R" else "task" for t in asyncio.all_tasks(loop)
+                      if t is not cur and not t.done())
+        out.update(r=res.get("R", "pending"), r_at=at.get("R", -1), close_called=at.get("close_called", -1),
+                   eff_recv=eff.get("recv", "?"), eff_close=eff.get("close", "?"), code=eff.get("code"),
+                   acquired=len(conn._acquired), open_r=sum(1 for tr in env.transports if tr.owner == "R" and not tr.closing),
+                   live=live)
+        # follow-up on the same session
+        for tr in env.transports:
+            tr.auto = False
+        env.unstalled = True
+        if not task.done():
+            task.cancel()
+            await asyncio.sleep(0.01)
+        f = {}
+
+        async def follow():
+            try:
+                async with session.get("http://10.0.0.2/", timeout=aiohttp.ClientTimeout(total=50)) as r:
+                    f["r"] = "ok" if await r.read() == b"ok" else "E_OTHER(body)"
+            except BaseException as e:  # noqa
+                f["r"] = _classify(e)
+        ft = loop.create_task(follow(), name="F")
+        await asyncio.sleep(100)
+        out["follow"] = f.get("r", "pending")
+        if not ft.done():
+            ft.cancel()
+        await asyncio.sleep(0)
+        await session.close()
+        return out
+
+    cmod.aiohappyeyeballs.start_connection = env.start_connection
+    cmod.create_connection = env.create_connection
+    try:
+        env.unstalled = False
+        # R's connect completes at once in WS scenarios
+        orig_start = env.start_connection
+
+        async def start_now(addr_infos, **kw):
+            sock = FakeSock()
+            env.socks.append(sock)
+            return sock
+        cmod.aiohappyeyeballs.start_connection = start_now
+        task = loop.create_task(main(), name="main")
+        task.add_done_callback(lambda t: loop.stop())
+        loop.run_forever()
+        if not task.done():
+            out["harness"] = "quiescent"
+        elif task.exception() is not None:
+            out["harness"] = "E_OTHER(" + type(task.exception()).__name__ + ")"
+            out["harness_detail"] = repr(task.exception())
         return out
     finally:
         cmod.aiohappyeyeballs.start_connection, cmod.create_connection = saved
